@@ -186,7 +186,7 @@ def _x_runner(tier: str, seed: int, workers: int):
     from xh import c15_x
     from xh.runner import run_obligations
 
-    return run_obligations("xh.c15_x", c15_x.QUICK, 60 if tier == "quick" else 240, workers=workers)
+    return run_obligations("xh.c15_x", c15_x.QUICK if tier == "quick" else c15_x.THOROUGH, 150 if tier == "quick" else 600, workers=workers)
 
 
 def replay_obligation(payload):
